@@ -276,6 +276,12 @@ def module_orders(reg, n_module_ops):
     return out
 
 
+class Inapplicable(Exception):
+    """the case leaves the modelled domain (e.g. Glommer() itself raises TypeError because the
+    registry it copies its operations from holds an auto-discovery function that refuses a default
+    type)"""
+
+
 class World:
     """the registries of one case, created by explicit `create` actions (or at first use)"""
 
@@ -306,8 +312,11 @@ class World:
                 r = core.TargetRegistry(register_default_types=(k[-1] == '1'))
                 self.init_trees[i] = trees_json(r)
             else:
-                g = core.Glommer() if k == 'glommer:1' and i % 2 == 0 else \
-                    core.Glommer(register_default_types=(k[-1] == '1'))
+                try:
+                    g = core.Glommer() if k == 'glommer:1' and i % 2 == 0 else \
+                        core.Glommer(register_default_types=(k[-1] == '1'))
+                except TypeError as e:
+                    raise Inapplicable('Glommer() raised TypeError: %s' % e)
                 self.glommers[i] = g
                 r = g.scope[core.TargetRegistry]
                 builtin = set(core.TargetRegistry(register_default_types=False)._op_auto_map)
@@ -479,6 +488,9 @@ def run_impl(case):
                 raise ValueError(a['a'])
         trees = [trees_json(r) for r in w.regs]
         init = list(w.init_trees)
+    except Inapplicable as e:
+        out['impl'] = {'skip': str(e)}
+        return out
     finally:
         w.close()
     out['impl'] = {'obs': obs, 'trees': trees, 'init_trees': init}
